@@ -145,6 +145,6 @@ func TestC04(t *testing.T) {
 		Gen:      gen,
 		Oracle:   oracle,
 		Quick:    600,
-		Thorough: 12000,
+		Thorough: 1500,
 	})
 }
